@@ -119,7 +119,7 @@ fn build_side(spec: &SessionSpec, initiator: bool, omit: &[u8]) -> Result<Handsh
     let rng = SharedRng::seeded(spec.key_seed ^ 0x33, spec.suite.dh == DhKind::P256);
     rng.script(&spec.e_priv(initiator));
     let ov = EpOverrides { omit_psks: omit.to_vec(), ..Default::default() };
-    build_snow(spec, initiator, &ov, &Instr { rng: Some(rng), log: None }).map_err(|x| Fail::new(format!("build {}: {}", spec.name_string(), e(&x))))
+    build_snow(spec, initiator, &ov, &Instr { rng: Some(rng), log: None }).map_err(|x| Fail::setup(format!("build {}: {}", spec.name_string(), e(&x))))
 }
 
 /// psk indices whose token sits in message `idx`
@@ -163,7 +163,7 @@ fn run_session(spec: &SessionSpec, faults: &[Fault], plen: usize) -> Result<Outc
         other.key_seed = mix(spec.key_seed, 0xF0F0);
         let mut pair = super::c10::drive_to(&other, idx)?;
         let w = if idx % 2 == 0 { &mut pair.i } else { &mut pair.r };
-        hs_write(w, &other.payload(idx, plen), 65535 + 16).map_err(|x| Fail::new(format!("foreign write: {}", e(&x))))
+        hs_write(w, &other.payload(idx, plen), 65535 + 16).map_err(|x| Fail::setup(format!("foreign write: {}", e(&x))))
     };
     for idx in 0..nm {
         let payload = spec.payload(idx, plen);
@@ -415,8 +415,8 @@ fn snapshot_check(spec: &SessionSpec, f: &Fault, plen: usize) -> Result<bool, Fa
     let mut hr = build_side(spec, false, &omit_rr)?;
     for k in 0..idx {
         let (w, r) = if k % 2 == 0 { (&mut hi, &mut hr) } else { (&mut hr, &mut hi) };
-        let m = hs_write(w, &spec.payload(k, plen), 65535 + 16).map_err(|x| Fail::new(format!("{name}: prefix write {k}: {}", e(&x))))?;
-        hs_read(r, &m, 65535).map_err(|x| Fail::new(format!("{name}: prefix read {k}: {}", e(&x))))?;
+        let m = hs_write(w, &spec.payload(k, plen), 65535 + 16).map_err(|x| Fail::setup(format!("{name}: prefix write {k}: {}", e(&x))))?;
+        hs_read(r, &m, 65535).map_err(|x| Fail::setup(format!("{name}: prefix read {k}: {}", e(&x))))?;
     }
     let lay = spec.layouts();
     let payload = spec.payload(idx, plen);
@@ -468,7 +468,7 @@ fn snapshot_check(spec: &SessionSpec, f: &Fault, plen: usize) -> Result<bool, Fa
             check("out-of-turn read", &before, w, &res)
         },
         c => {
-            let msg = hs_write(w, &payload, 65535 + 16).map_err(|x| Fail::new(format!("{name}: write {idx}: {}", e(&x))))?;
+            let msg = hs_write(w, &payload, 65535 + 16).map_err(|x| Fail::setup(format!("{name}: write {idx}: {}", e(&x))))?;
             let mut buf = vec![0u8; 65535];
             let (actor, m): (&mut HandshakeState, Vec<u8>) = match c {
                 Cause::RFlip(pos, bit) => {
@@ -495,7 +495,7 @@ fn snapshot_check(spec: &SessionSpec, f: &Fault, plen: usize) -> Result<bool, Fa
                     other.key_seed = mix(spec.key_seed, 0xF0F0);
                     let mut pair = super::c10::drive_to(&other, idx)?;
                     let ow = if idx % 2 == 0 { &mut pair.i } else { &mut pair.r };
-                    let m = hs_write(ow, &other.payload(idx, plen), 65535 + 16).map_err(|x| Fail::new(format!("foreign write: {}", e(&x))))?;
+                    let m = hs_write(ow, &other.payload(idx, plen), 65535 + 16).map_err(|x| Fail::setup(format!("foreign write: {}", e(&x))))?;
                     (r, m)
                 },
                 _ => return Ok(true),
@@ -517,13 +517,13 @@ pub fn oracle(c: &Case, acc: &mut Acc) -> CaseResult {
             return Ok(());
         }
     }
-    // (2)+(3) differential run
+    // (2)+(3) differential run; the fault-free run is the reference (its failure is a set-up problem)
+    let b = run_session(spec, &[], c.plen).map_err(|f| Fail::setup(format!("fault-free reference run failed: {}", f.msg)))?;
     let a = run_session(spec, &c.faults, c.plen)?;
     if a.not_a_failure {
         acc.skip("injected call did not fail (not a failure case)");
         return Ok(());
     }
-    let b = run_session(spec, &[], c.plen)?;
     for (k, (ma, mb)) in a.t.msgs.iter().zip(b.t.msgs.iter()).enumerate() {
         ensure!(
             ma == mb,
